@@ -164,6 +164,8 @@ def execute(plan):
         rec['events'] = k.events_run
         rec['switches'] = k.switches
         rec['preemptions'] = k.preemptions
+        rec['sync_ops'] = getattr(world, 'sync_ops', 0)
+        rec['sync_contended'] = getattr(world, 'sync_contended', 0)
         rec['sched_trace'] = list(k.sched_trace[:512])
         rec['assignments'] = [list(e.assignments) for e in world.executors]
         rec['rand_log'] = list(world.rand.log) if world.rand else []
